@@ -806,7 +806,11 @@ func (e *Evaluator) evalPostfixOperatorExp(
 		if left.Is(object.FLOAT_OBJ) {
 			value := left.(*object.Float).Value
 			float := &object.Float{Value: value}
-			float.SubtractFromFloat(1)
+
+			if err := float.SubtractFromFloat(1); err != nil {
+				return e.newError(node, "%s", err.Error())
+			}
+
 			return float
 		}
 	}
